@@ -1190,3 +1190,38 @@ def oracle(case, trace):
                 hit("generated-fresh", kind, value=v)
                 return viol
     return viol
+
+
+# ---------------------------------------------------------------------------------------
+# known findings: one directed witness per listed signature (the same histories are the
+# `ids_exact_violated*` witnesses in lean/DefconModel/Props/C10.lean)
+# ---------------------------------------------------------------------------------------
+
+_LEAKING_CONTOUR = [1, [[2, 3], [2, 2]]]       # contour 1 with points 3 and 2: point 2 will collide
+
+WITNESSES = {
+    "C10/registry-exact/instantiated-not-inserted":
+        dict(ops=[["instAnchor", 0, 1]], standalone=False),
+    "C10/registry-exact/leak-after-rejected/draw":
+        dict(ops=[["insAnchor", 0, 0, 2, False], ["draw", 0, [_LEAKING_CONTOUR], [], False]], standalone=False),
+    "C10/registry-exact/leak-after-rejected/drawFrom":
+        dict(ops=[["insContour", 1, 0] + _LEAKING_CONTOUR, ["insAnchor", 0, 0, 2, False], ["drawFrom", 0, 1, False]],
+             standalone=False),
+    "C10/registry-exact/leak-after-rejected/copyFrom":
+        dict(ops=[["insContour", 1, 0] + _LEAKING_CONTOUR, ["insComp", 0, 0, MISSING, 2], ["copyFrom", 0, 1]],
+             standalone=False),
+    "C10/registry-exact/leak-after-rejected/deserializeFrom":
+        dict(ops=[["insContour", 1, 0] + _LEAKING_CONTOUR, ["instAnchor", 0, 2], ["deserializeFrom", 0, 1]],
+             standalone=False),
+    "C10/registry-exact/leak-after-rejected/reload":
+        dict(ops=[["instAnchor", 0, 2],
+                  ["reload", 0, dict(contours=[_LEAKING_CONTOUR], comps=[], anchors=[], guides=[])]], standalone=False),
+}
+
+
+def replay_known(entry):
+    case = WITNESSES.get(entry.get("signature"))
+    if case is None:
+        return False
+    r = run_impl(case)
+    return any(v.get("signature") == entry["signature"] for v in r["viol"])
